@@ -1015,6 +1015,19 @@ func (rc *raftNode) processReady(rd raft.Ready) {
 			applyWaitDone = make(chan struct{})
 		}
 	}
+	// With a single voter an entry is committed by the Ready that has yet to persist it. It must
+	// be in the WAL before the apply loop can acknowledge it and before a new leader sends it
+	// (etcd issue 14370), so in that case the state is persisted first.
+	persisted := false
+	if committedEntriesNotPersisted(&rd) {
+		if err := rc.persistRaftState(&rd); err != nil {
+			rc.Errorf("raft save states to disk error: %v", err)
+			go rc.ds.Stop()
+			<-rc.stopc
+			return
+		}
+		persisted = true
+	}
 	processedMsgs, hasRequestSnapMsg := rc.processMessages(rd.Messages)
 	if len(rd.CommittedEntries) > 0 || !raft.IsEmptySnap(rd.Snapshot) || hasRequestSnapMsg {
 		var newPublished uint64
@@ -1062,11 +1075,13 @@ func (rc *raftNode) processReady(rd raft.Ready) {
 	start := time.Now()
 	// TODO: save entries, hardstate and snapshot should be atomic, or it may corrupt the raft
 	verifhook.Crash("ready.before_persist")
-	if err := rc.persistRaftState(&rd); err != nil {
-		rc.Errorf("raft save states to disk error: %v", err)
-		go rc.ds.Stop()
-		<-rc.stopc
-		return
+	if !persisted {
+		if err := rc.persistRaftState(&rd); err != nil {
+			rc.Errorf("raft save states to disk error: %v", err)
+			go rc.ds.Stop()
+			<-rc.stopc
+			return
+		}
 	}
 	verifhook.Crash("ready.wal_saved")
 	cost := time.Since(start)
@@ -1151,6 +1166,18 @@ func (rc *raftNode) processReady(rd raft.Ready) {
 }
 
 //should  atomically saves the Raft states, log entries and snapshots
+// committedEntriesNotPersisted reports whether the Ready hands out, as committed, entries that
+// the same Ready still has to write to the WAL (possible only when the quorum is this node alone).
+func committedEntriesNotPersisted(rd *raft.Ready) bool {
+	if len(rd.CommittedEntries) == 0 || len(rd.Entries) == 0 {
+		return false
+	}
+	lastCommitted := rd.CommittedEntries[len(rd.CommittedEntries)-1]
+	firstUnstable := rd.Entries[0]
+	return lastCommitted.Term > firstUnstable.Term ||
+		(lastCommitted.Term == firstUnstable.Term && lastCommitted.Index >= firstUnstable.Index)
+}
+
 func (rc *raftNode) persistRaftState(rd *raft.Ready) error {
 	// Must save the snapshot file and WAL snapshot entry before saving any other entries or hardstate to
 	// ensure that recovery after a snapshot restore is possible.
